@@ -58,7 +58,9 @@ CHECKS = {
              "defragmentation), both files are snapshotted, plus two torn prefixes of the pending write. Every distinct image is "
              "reopened by EVERY file-backed variant (Db, DbFile, DbAny file, DbAny mapped) and fully dumped through the public "
              "API (elements, endpoints, properties, aliases, indexes, adjacency). TLC (DbTrace.tla, CrashMode = readable) "
-             "requires each CrashProbe event to be ok (opened, no panic, every read succeeded) and its dump to satisfy DbInv.",
+             "requires each CrashProbe event to be ok (opened, no panic, every read succeeded) and its dump to satisfy DbInv. A second "
+             "profile (crash_big) uses values of exact sizes around 64 KiB multiples (65535 / 65536 / 65537 / 131072 / ...) replaced "
+             "in place, removed and reused.",
         design="3.1, 3.3, 4 C02",
         note="crash = process death (calls before the crash point are on disk in program order, none after); histories and, for "
              "steps with more than 60 distinct images, images are sampled (seeded); hook H1 completeness is cross-checked by C01",
@@ -118,7 +120,7 @@ CHECKS = {
         text="LIMITED claim: framing and sizes. Values of the built-in serializable types (integers, floats incl. signed zero and "
              "infinities, bool, usize, strings with 1-4 byte UTF-8, byte vectors, nested vectors, PathBuf, SocketAddr, IpAddr, "
              "SystemTime before and after the epoch) and of a corpus of DbSerialize-derived types (named / tuple / unit structs, "
-             "nested, enums with unit / tuple / struct / nested variants) are serialized, measured and deserialized by the real "
+             "nested, enums with unit / tuple / struct / nested variants, vectors of zero-size elements) are serialized, measured and deserialized by the real "
              "code; each event carries the framing tree written by hand from the format rules. Codec.tla recomputes the size and the "
              "offset and value of every length prefix and variant tag from the tree and requires Len(bytes) = reported size = "
              "Size(tree), Framed(bytes, tree) and a successful round trip.",
@@ -127,7 +129,7 @@ CHECKS = {
              "equality; DbValue / DbKeyValue / DbId / QueryId are opaque values (size = length, round trip); values are sampled",
         technique="TLA+ (TLC) evaluation of an independent framing / size oracle over recorded serializations",
         engine="vdb"),
-    "C22": _db("A corpus of user types deriving agdb::DbType (scalars, strings and byte arrays across the inline limit, bool, f64, "
+    "C22": _db("A corpus of user types deriving agdb::DbType and agdb::DbElement (required + optional fields, optional only, plain; scalars, strings and byte arrays across the inline limit, bool, f64, "
                "vectors of strings / integers / floats, Option fields, id fields of type Option<DbId> and Option<QueryId>, a type "
                "without id) is inserted with insert().element / elements, updated through the id field, and selected back as that "
                "type, on DbMemory, DbFile and Db. The trace carries InsertValues events whose pairs are the HAND-WRITTEN expectation "
@@ -204,7 +206,7 @@ CHECKS = {
         engine="vserver"),
     "C26": dict(
         level="model_checking",
-        text="As C24 with database names drawn from a path-like alphabet (hidden names, 'audit', 'backups', 'audit/a.log', 'backups/a.bak', '../a', '../bob/a', 'a/../b', './a', '..') for add / copy / rename and the follow-up operations; the observation lists every file under and around the data directory with its owner directory, and for every database the normalised paths the server's name-to-path mapping assigns. ServerTrace.tla requires: every file lies in an existing user's directory, files that appear or disappear across a request lie in the directory of the request's owner (or target owner), every database's paths lie in its owner's directory, and no path belongs to two databases.",
+        text="As C24 with database names drawn from a path-like alphabet (hidden names, 'audit', 'backups', 'audit/a.log', 'backups/a.bak', '../a', '../bob/a', 'a/../b', './a', '..') for add / copy / rename (user API and admin API incl. cross-owner copies and renames) and the follow-up operations; the observation lists every file under and around the data directory with its owner directory, and for every database the normalised paths the server's name-to-path mapping assigns. ServerTrace.tla requires: every file lies in an existing user's directory, files a copy / rename creates lie in the directory of the TARGET owner and files a request removes in the directory of the database's owner, every database's paths lie in its owner's directory, and no path belongs to two databases.",
         design='3.11, 4 C26',
         note="request sequences are sampled (seeded), one client at a time, 2 users + the server admin; sessions are tracked from "
              "login/logout because they are not observable; token expiry is not exercised (configuration minimum 60 s); single "
@@ -269,10 +271,14 @@ CHECKS = {
              "violates it (kept as the non-vacuity probe). A real agdb_server process built with hook H5 (commit / start / end of "
              "every cluster log entry appended to an event file; the start of entry i delayed by d*(3 - i mod 4) ms) is loaded by 6 "
              "concurrent clients issuing cluster actions; ApplyTrace.tla decides the event file: commits in log order, an execution "
-             "starts only for the oldest pending entry and only when none is running, every committed entry executed once.",
+             "starts only for the oldest pending entry and only when none is running, every committed entry executed once. Some actions "
+             "fail (batches with a failing query); after all requests are answered the server is stopped and started again on the same "
+             "data and takes more actions: ApplyOrder has a Restart action (entries not marked executed are handed over again; probe "
+             "MCApplyOrder_nomark.cfg) and ApplyTrace rejects any second execution.",
         design="3.10, 4 C31",
         note="single node server (the executor code is the same on every node); task schedules are sampled and perturbed by the hook's "
-             "delay, which cannot make an in-order executor run out of order; restart / re-execution is not exercised",
+             "delay, which cannot make an in-order executor run out of order; one clean restart per server (a crash in the middle of "
+             "an execution is not exercised)",
         technique="TLA+ model checking (TLC) of the executor model + trace validation of the hook's event file from a real server",
         engine="vserver"),
     "C32": dict(
